@@ -227,6 +227,19 @@ def opBbs (ty inp : Int) : String :=
   | .ok .concatDatasetBatchSampler => "ok 0"
   | .ok .batchVolumeOverSequential => if inp = 0 then "ok 1" else "err AttributeError"
 
+/-- `eval3d sc c z x y | data`: the volume `evaluate` receives (row-major, shape `(sc, c, z, x, y)`) ->
+shape and data of the tensor handed to the metrics in the `ndim == 3` branch -/
+def opEval3d (dims data : List Int) : String :=
+  match dims.map Int.toNat with
+  | [sc, c, z, x, y] =>
+    let p := x * y
+    if p = 0 ∨ z = 0 ∨ c = 0 ∨ data.length ≠ sc * c * z * p then "err BadOp" else
+    let vol : List (List (List (List Int))) :=
+      (chunksOf (c * z * p) data).map fun s => (chunksOf (z * p) s).map (chunksOf p)
+    let out := evalReshape z vol
+    okG [[(out.length : Int), (c : Int), (x : Int), (y : Int)], out.flatten.flatten]
+  | _ => "err BadOp"
+
 def step (op : String) (gs : List (List Int)) : String :=
   match op, gs with
   | "process", [shape, data, nums, dens, res] => opProcess shape data nums dens res
@@ -239,6 +252,7 @@ def step (op : String) (gs : List (List Int)) : String :=
   | "inwindow", [[k], delivered] => opInWindow k delivered
   | "write", [flags, names, dims, data] => opWrite flags names dims data
   | "bbs", [[ty, inp]] => opBbs ty inp
+  | "eval3d", [dims, data] => opEval3d dims data
   | _, _ => "err BadOp"
 
 end DirectVerif.Driver.C14
